@@ -517,6 +517,14 @@ Definition row_eqb (a b : option (list sval)) : bool :=
   | _, _ => false
   end.
 
+Definition uniq_eqb (a b : list (list nat)) : bool :=
+  Nat.eqb (length a) (length b) && forallb (fun p => Nat.eqb (length (fst p)) (length (snd p)) && forallb (fun q => Nat.eqb (fst q) (snd q)) (combine (fst p) (snd p))) (combine a b).
+(** The session's view of the table is what it saw when it began: same shape, same constraints, same rows. *)
+Definition table_unchanged (b v : table) : bool :=
+  Nat.eqb (length (t_cols b)) (length (t_cols v)) && uniq_eqb (t_uniq b) (t_uniq v)
+  && Nat.eqb (length (t_rows b)) (length (t_rows v))
+  && forallb (fun p => (fst (fst p) =? fst (snd p))%N && key_eqb (snd (fst p)) (snd (snd p))) (combine (t_rows b) (t_rows v)).
+
 (** Merge one table of a finishing session into the committed state.
     Conflict: a row this session updated or deleted was changed by someone else since the session
     began (first committer wins), or the table itself was altered/dropped meanwhile. *)
@@ -531,6 +539,7 @@ Definition merge_table (cur : option table) (base view : option table) : res (op
                                then Ok None else Err
                    | None => Err end
   | Some b, Some v =>
+      if table_unchanged b v then Ok cur else        (* the session did not touch this table *)
       match cur with
       | None => Err
       | Some c =>
@@ -552,7 +561,9 @@ Definition merge_table (cur : option table) (base view : option table) : res (op
                                                        | None => [] end                (* deleted here *)
                                            | None => [r] end) (t_rows c) in            (* inserted by others *)
             let added := filter (fun r => match find_row (t_rows b) (fst r) with None => true | Some _ => false end) (t_rows v) in
-            let t' := {| t_cols := t_cols v; t_uniq := t_uniq v; t_rows := kept ++ added |} in
+            (* constraints added meanwhile by others stay, unless the session changed them itself *)
+            let uq := if uniq_eqb (t_uniq b) (t_uniq v) then t_uniq c else t_uniq v in
+            let t' := {| t_cols := t_cols v; t_uniq := uq; t_rows := kept ++ added |} in
             if table_ok t' then Ok (Some t') else Err
       end
   end.
